@@ -229,5 +229,26 @@ def run(res, replay=None):
                     bad("the extended sphere is not internally tangent to the old one (not minimal / not containing)")
                 elif abs(r - 0.5 * (d + r0)) > t:
                     bad(f"radius {r}, the smallest sphere containing both has radius {0.5 * (d + r0)}")
+    # ---------------- the helpers regenerated from the source: src/geometry.rs -> Gallina over R (tools/translate_geom.py); the defining
+    # equations are proved by Coq about the translated definitions on every run
+    if not replay:
+        import re as _re
+        import translate_geom as TG
+        try:
+            gen, info = TG.gallina(os.path.join(C.REPO, "src", "geometry.rs"))
+            rc_g, out_g = C.coq_eval(gen, "C19_gen")
+            axs = set(_re.findall(r"^([A-Za-z_][\w.]*)\s*$|^([A-Za-z_][\w.]*) :", out_g, flags=_re.M))
+            names = {a or b for a, b in axs} - {"Axioms"}
+            foreign = sorted(n for n in names if n not in C.ALLOWED_AXIOMS)
+            gen_ok = rc_g == 0 and out_g.count("Axioms:") + out_g.count("Closed under the global context") == len(TG.THEOREMS) and not foreign
+            detail = (("axioms outside the allow-list: " + ", ".join(foreign) + "; ") if foreign else "") + out_g[-300:].replace("\n", " ")
+            res.notes["source_translation"] = {"functions_and_lets": info["functions"], "asserted_side_conditions": info["asserts"],
+                                               "theorems_proved_about_the_translation": TG.THEOREMS if gen_ok else [], "proved": gen_ok}
+        except TG.TranslationError as e:
+            gen_ok, detail = False, "translator: " + str(e)
+            res.notes["source_translation"] = {"error": str(e)}
+        if not gen_ok:
+            res.violation("proof:C19-source-translation", "the defining equations are no longer proved about the Gallina translation of the geometry helpers "
+                          "(src/geometry.rs -> generated C19_gen.v): " + detail, {"obligation": "C19_gen.v " + ", ".join(TG.THEOREMS), "detail": detail}, no_input=True)
     if cases:
         res.sample(cases[0])
